@@ -311,6 +311,8 @@ def obligations(tier):
             obs.append(mass_ob(mk, api))
     obs.append(linalg_ob("invert_matrix"))
     obs.append(linalg_ob("invert_diagonal"))
+    from .common import logdomain_ob
+    obs.append(logdomain_ob(prog, "linalg"))
     for mk in ("cold", "warm", "diag"):
         obs.append(normalize_ob(mk))
     for args in ("Sigma", "Sigma+Lambda", "full"):
@@ -329,7 +331,7 @@ def obligations(tier):
     return obs
 
 
-FLOORS = {"group:mass": 24, "group:linalg": 2, "group:normalize": 3, "group:ctor": 4, "group:site": 18, "group:after": 230}
+FLOORS = {"group:mass": 24, "group:linalg": 3, "group:normalize": 3, "group:ctor": 4, "group:site": 18, "group:after": 230}
 LEVEL = "proof"
 EXPLANATION = ("Closed-form mass (compute_lnZ / log_integral* / integral* / integrate('1')), utils/linalg.py against its summary, normalisation, "
                "every density constructor argument combination, and a who-may-construct scan: every library site constructing a GaussianPDF "
